@@ -59,7 +59,11 @@ fn corr_group(g: &Group, chain: &mut Vec<usvg::Transform>, root_ts: usvg::Transf
                 .iter()
                 .map(|n| {
                     let b = if which == 0 { n.bounding_box() } else { n.stroke_bounding_box() };
+                    fn has_content(g: &Group) -> bool {
+                        !g.filters().is_empty() || g.children().iter().any(|c| match c { Node::Group(cg) => has_content(cg), _ => true })
+                    }
                     match n {
+                        Node::Group(cg) if !has_content(cg) => "none".to_string(),
                         Node::Group(cg) if fin(cg.transform()) => format!("{}@{}", rect_csv(b), ts_csv(cg.transform())),
                         _ => rect_csv(b),
                     }
@@ -140,7 +144,11 @@ fn relations(g: &Group, parent_abs: usvg::Transform, at: &str, key: &str, s: &mu
         let here = format!("{}/{}", at, i);
         // the parent's absolute boxes contain the child's
         let (cb, csb) = (n.abs_bounding_box(), n.abs_stroke_bounding_box());
-        let empty_group = matches!(n, Node::Group(cg) if !cg.has_children());
+        // a group with nothing in it (no shapes at any depth, no filter) has no box: what it reports is a placeholder
+        fn has_content(g: &Group) -> bool {
+            !g.filters().is_empty() || g.children().iter().any(|c| match c { Node::Group(cg) => has_content(cg), _ => true })
+        }
+        let empty_group = matches!(n, Node::Group(cg) if !has_content(cg));
         if !empty_group && g.abs_bounding_box().width() + g.abs_bounding_box().height() > 0.0 {
             if !contains(g.abs_bounding_box(), cb, eps(cb)) {
                 s.finding("oracle:C12:parent-abs-box-misses-child", &format!("{}: parent abs box {:?} does not contain child abs box {:?}", here, g.abs_bounding_box(), cb), key);
